@@ -21,6 +21,7 @@ type Job struct {
 	MaxRuns       int     `json:"max_runs"`                  // per worker, 0 = unlimited
 	FirstRun      uint64  `json:"first_run"`                 // run indices start here
 	NoBlockWriter bool    `json:"no_block_writer,omitempty"` // see simWriter.noblock
+	NoLag         bool    `json:"no_lag,omitempty"`          // C14: drop the lag of generated cases (GUI reads every line at once)
 	SkipK         int     `json:"skip_k,omitempty"`          // this worker's first SkipK runs were done by a predecessor process
 	Replay        string  `json:"replay,omitempty"`          // replay this file instead of generating
 	Hashes        bool    `json:"hashes,omitempty"`          // record a history hash per run (determinism self-test)
